@@ -6,7 +6,7 @@ from . import common
 from .common import Report, Scratch, MachineryError
 
 RAISED = [-1, 0, 0]
-C14_CLAUSES = {'factor_not_finite_positive', 'open_best_not_finite_positive', 'grade_not_finite_positive',
+C14_CLAUSES = {'age_past_last_column_does_not_use_last_column', 'factor_not_finite_positive', 'open_best_not_finite_positive', 'grade_not_finite_positive',
                'grade_differs_from_standard_over_performance', 'better_performance_does_not_grade_higher',
                'open_best_at_factor_one_does_not_grade_one', 'spelling_changes_result'}
 C15_CLAUSES = {'distance_query_raised', 'distance_result_not_finite_positive', 'below_table_not_clamped_to_first_row',
@@ -71,8 +71,13 @@ def _ag_job(job):
     common.use_repo()
     import athlib
     from athlib.utils import parse_hms
-    tbl, g, ev, ages2, timed = job
+    tbl, g, ev, ages2, timed = job[:5]
+    lastage = job[5] if len(job) > 5 else None
     out = []
+    flast = None
+    if lastage is not None:
+        flast = L(call(athlib.wma_athlon_age_factor, g, lastage, ev) if tbl == 'athlon'
+                  else call(athlib.wma_age_factor, g, lastage, ev, year=int(tbl)))
     for a2 in ages2:
         age = a2 / 2.0 if a2 % 2 else a2 // 2
         if tbl == 'athlon':
@@ -103,6 +108,7 @@ def _ag_job(job):
             b = 1.0
         out.append({'k': 'ag', 'tbl': tbl, 'g': g, 'ev': ev, 'age2': a2, 'timed': timed, 'f': L(f),
                     'b': L(b) if b is not None else list(RAISED), 'perfs': perfs, 'atbest': atbest if perfs else L(1.0),
+                    'past': bool(lastage is not None and age > lastage), 'flast': flast if flast is not None else list(RAISED),
                     'n': 2 + len(perfs)})
     return out
 
@@ -152,15 +158,17 @@ def run14(tier):
                 if quick:
                     a2 = [x for x in a2 if x % 2 == 0 or x % 14 == 1]
                     a2 = a2[::2] + a2[-3:]
+                fac = row[3:]
+                lastcol = ages[-1] if (fac[-1] is not None and fac[-1] > 0) else None
                 for i in range(0, len(a2), 40):
-                    jobs.append((tbl, g, ev, a2[i:i + 40], timed))
+                    jobs.append((tbl, g, ev, a2[i:i + 40], timed, lastcol))
                 spjobs.append((tbl, g, ev, timed, [a2[0] // 2, a2[len(a2) // 2] // 2 + 0.5 if (a2[len(a2) // 2] + 1) in a2 else a2[len(a2) // 2] // 2, a2[-1] // 2]))
     d = T['athlon']
     for g in 'mf':
         for row in d[g]:
             ev = row[0]
             a2 = list(range(70, 2 * 131 + 1, 1 if not quick else 3))
-            jobs.append(('athlon', g, ev, a2, True))
+            jobs.append(('athlon', g, ev, a2, True, d['ages'][-1]))
     with Pool(common.NCPU) as pool:
         recs = [x for part in pool.map(_ag_job, jobs, chunksize=4) for x in part]
     # spelling independence
